@@ -1068,6 +1068,13 @@ def same_by_extensionality(I, t1, t2):
     ctx = I.ctx
     if ctx.entails(z3.And(t1.length() == 0, t2.length() == 0)):
         return True, None
+    for x, y in ((t1, t2), (t2, t1)):
+        if isinstance(x, Conc) and not x.items:
+            # an empty list literal against an abstract list: equal iff the latter is empty on this path
+            goal = y.length() == 0
+            if ctx.entails(goal, patient=True):
+                return True, None
+            return False, ("lists differ (one is empty)", goal)
     if t1.etype is None or t2.etype is None:
         return None, "cannot compare lists of non-element values"
     i = ctx.fresh_int("ext")
